@@ -44,7 +44,8 @@ def canon_exc(exc):
     if isinstance(exc, SimTransportError):
         return "TransportError"
     if isinstance(exc, ex.PushFailedError):
-        return "PushFailedError:" + hx(exc.args[0] if exc.args else b"")
+        a = exc.args[0] if exc.args else b""
+        return "PushFailedError:" + (hx(a) if isinstance(a, (bytes, bytearray)) else "nonbytes:" + type(a).__name__)
     if isinstance(exc, ex.AdbCommandFailureException):
         msg = exc.args[0] if exc.args else ""
         prefix = "Command failed: "
